@@ -24,7 +24,7 @@ Record respobs := RO {
   r_sub : nat;                      (* subscription index *)
   r_evt : nat;                      (* ordinal of the query event on that resource within the segment *)
   r_kind : N;                       (* 0 no events, 1 result, 2 error *)
-  r_res : list bytes
+  r_res : rvalue                    (* the collection / model of a result answer *)
 }.
 
 Record segment := SG {
@@ -36,12 +36,13 @@ Record segment := SG {
   sg_ar2 : list (list (bytes * qd));          (* AffectedResources of "t.p.$x" per call: rid and its query *)
   sg_ar4 : list (list bytes);                 (* AffectedResources of "t.qp.$i" per call *)
   sg_resps : list respobs;
-  sg_fresh : list outcome                     (* get per subscription after the segment *)
+  sg_fresh : list (option rvalue)             (* get per subscription after the segment; None = error *)
 }.
 
 Record c14case := C14 {
   c_queries : list qd;
   c_handlers : bool;
+  c_delayed : bool;                 (* the gateway answers query events only after the segment's Flush *)
   c_subs : list sub;
   c_segs : list segment
 }.
@@ -52,8 +53,17 @@ Definition pub_eqb (a b : pub) : bool :=
   match a, b with
   | PReset x, PReset y => beq x y
   | PQueryEvent x, PQueryEvent y => beq x y
+  | _, _ => false            (* badgerstore never sends resource events *)
+  end.
+
+Definition rvalue_eqb (a b : rvalue) : bool :=
+  match a, b with
+  | VColl x, VColl y => lbeq x y
+  | VModel x, VModel y => amap_eq x y
   | _, _ => false
   end.
+Definition orv_eqb (a b : option rvalue) : bool :=
+  match a, b with Some x, Some y => rvalue_eqb x y | None, None => true | _, _ => false end.
 
 (* ---- the handler configuration of the harness ---- *)
 Definition rid_all : bytes := [116; 46; 97; 108; 108].              (* "t.all" *)
@@ -73,12 +83,34 @@ Fixpoint assoc_qd (rid : bytes) (l : list (bytes * qd)) : option (iquery val) :=
   | (r, q) :: l' => if beq rid r then Some (to_iq q) else assoc_qd rid l'
   end.
 
-Definition h1 : hconfig val := HC false rid_all None (fun rid _ => if beq rid rid_all then Some (to_iq q_all) else None).
-Definition h2 (ar : list (bytes * qd)) : hconfig val :=
-  HC false [116; 46; 112; 46; 36; 120] (Some (fun _ => map fst ar)) (fun rid _ => assoc_qd rid ar).
-Definition h3 (subs : list sub) : hconfig val := HC true rid_q None (sub_lookup subs).
-Definition h4 (subs : list sub) (ar : list bytes) : hconfig val :=
-  HC true [116; 46; 113; 112; 46; 36; 105] (Some (fun _ => ar)) (sub_lookup subs).
+(* the transformers of the harness map id to the reference "t.item.<id>" *)
+Definition item_ref (id : bytes) : bytes := [116; 46; 105; 116; 101; 109; 46] ++ id.
+Definition hq := qhandler (change val) (iquery val).
+Definition nilq : iquery val := to_iq q_all.
+Definition with_norm (f : bytes -> bytes -> option (iquery val)) (rid cq : bytes) : option (iquery val * bytes) :=
+  match f rid cq with Some q => Some (q, cq) | None => None end.
+
+(* "t.all": ordinary collection, RequestHandler, no path parameters *)
+Definition h1 : hq :=
+  QH TCollection rid_all false None (Some (fun rid => if beq rid rid_all then Some (to_iq q_all) else None))
+     nilq (fun _ => true) TrNone None.
+(* "t.p.$x": ordinary collection with a path parameter, AffectedResources, IDToRIDCollectionTransformer *)
+Definition h2 (ar : list (bytes * qd)) : hq :=
+  QH TCollection [116; 46; 112; 46; 36; 120] true None (Some (fun rid => assoc_qd rid ar))
+     nilq (fun _ => true) (TrColl item_ref) (Some (fun _ => map fst ar)).
+(* "t.q": query collection, QueryRequestHandler *)
+Definition h3 (subs : list sub) : hq :=
+  QH TCollection rid_q false (Some (with_norm (sub_lookup subs))) None nilq (fun _ => true) TrNone None.
+(* "t.qp.$i": query model with a path parameter, AffectedResources, IDToRIDModelTransformer *)
+Definition h4 (subs : list sub) (ar : list bytes) : hq :=
+  QH TModel [116; 46; 113; 112; 46; 36; 105] true (Some (with_norm (sub_lookup subs))) None
+     nilq (fun _ => true) (TrModel item_ref) (Some (fun _ => ar)).
+
+Definition hpubs (h : hq) (c : change val) : list pub := fst (handle_change bs_store h c).
+Definition handler_of (subs : list sub) (s : sub) : hq :=
+  if beq (s_rid s) rid_all then h1
+  else if s_isq s then (if beq (s_rid s) rid_q then h3 subs else h4 subs [])
+  else h2 [(s_rid s, s_q s)].
 
 (* pubs of the four handlers for the key-changing changes, consuming the
    recorded AffectedResources outputs *)
@@ -89,7 +121,7 @@ Fixpoint model_pubs (subs : list sub) (cs : list (change val))
   | c :: r =>
     if key_changed idxs c then
       let a2 := hd [] ar2 in let a4 := hd [] ar4 in
-      handler_pubs h1 c ++ handler_pubs (h2 a2) c ++ handler_pubs (h3 subs) c ++ handler_pubs (h4 subs a4) c
+      hpubs h1 c ++ hpubs (h2 a2) c ++ hpubs (h3 subs) c ++ hpubs (h4 subs a4) c
       ++ model_pubs subs r (tl ar2) (tl ar4)
     else model_pubs subs r ar2 ar4
   end.
@@ -107,20 +139,30 @@ Definition cb_ident_eqb (x y : cbobs) : bool :=
   Nat.eqb (cb_n x) (cb_n y) && beq (cb_id x) (cb_id y) &&
   oval_eqb (cb_before x) (cb_before y) && oval_eqb (cb_after x) (cb_after y).
 
-Definition resp_ok (subs : list sub) (kcs : list (change val)) (single : bool) (d' : kdb) (r : respobs) : bool :=
+(* a query response: result iff the change affects the subscription's query; the
+   result is compared when it is known at which index state it was computed *)
+Definition resp_ok (subs : list sub) (kcs : list (change val)) (known : bool) (d' : kdb) (r : respobs) : bool :=
   match nth_error subs (r_sub r), nth_error kcs (r_evt r) with
   | Some s, Some c =>
-    let q := to_iq (s_q s) in
-    if affects_query q (snd (fst c)) (snd c)
-    then (r_kind r =? 1) && (negb single || outcome_eqb (fetch_collection d' q) (FOk (r_res r)))
-    else r_kind r =? 0
+    match query_request bs_store (handler_of subs s) d' c (s_rid s) (s_cq s) with
+    | QRValue _ v => (r_kind r =? 1) && (negb known || rvalue_eqb v (r_res r))
+    | QREvents [] => r_kind r =? 0
+    | _ => r_kind r =? 2
+    end
   | _, _ => false
+  end.
+
+Definition fresh_of (subs : list sub) (d : kdb) (s : sub) : option rvalue :=
+  match get_resource bs_store (handler_of subs s) d (s_rid s) (s_cq s) with
+  | GValue _ v _ => Some v
+  | _ => None
   end.
 
 (* field codes: 1 OnChange reports  2 callbacks (which, order, id/before/after)
    3 query results inside a callback  4 Events() affected flags
-   5 query results after Flush  6 handler publications  7 query responses *)
-Fixpoint check_segs (qs : list qd) (hon : bool) (subs : list sub) (st : vstore val) (d : kdb)
+   5 query results after Flush  6 handler publications  7 query responses
+   8 get responses after the segment *)
+Fixpoint check_segs (qs : list qd) (hon delayed : bool) (subs : list sub) (st : vstore val) (d : kdb)
                     (segs : list segment) : list N :=
   match segs with
   | [] => []
@@ -136,12 +178,13 @@ Fixpoint check_segs (qs : list qd) (hon : bool) (subs : list sub) (st : vstore v
     (if outcomes_eqb (map (fun q => fetch_collection d' (to_iq q)) qs) (sg_results sg) then [] else [5]) ++
     (if negb hon || list_eqb pub_eqb (model_pubs subs cs (sg_ar2 sg) (sg_ar4 sg)) (sg_pubs sg) then [] else [6]) ++
     (if negb hon || forallb (resp_ok subs (filter (key_changed idxs) cs)
-                                     (Nat.eqb (length (sg_muts sg)) 1) d') (sg_resps sg) then [] else [7]) ++
-    check_segs qs hon subs st' d' r
+                                     (delayed || Nat.eqb (length (sg_muts sg)) 1) d') (sg_resps sg) then [] else [7]) ++
+    (if negb hon || list_eqb orv_eqb (map (fresh_of subs d') subs) (sg_fresh sg) then [] else [8]) ++
+    check_segs qs hon delayed subs st' d' r
   end.
 
 Definition check_case (c : c14case) : list N :=
-  nodup N.eq_dec (check_segs (c_queries c) (c_handlers c) (c_subs c) [] [] (c_segs c)).
+  nodup N.eq_dec (check_segs (c_queries c) (c_handlers c) (c_delayed c) (c_subs c) [] [] (c_segs c)).
 
 (* ---- the property on the implementation's outputs ---- *)
 Definition cb_change (x : cbobs) : change val := (cb_id x, cb_before x, cb_after x).
@@ -163,9 +206,9 @@ Definition precise_ok (qs : list qd) (x : cbobs) : bool :=
      okey_matches (q_prefix q) (filt_of (q_filt q)) (opt_key (ix_of (q_ix q)) (cb_after x)))
     (combine qs (cb_affected x)).
 
-Definition view_after (sg : segment) (i : nat) (s : sub) (before fresh : outcome) : outcome :=
+Definition view_after (sg : segment) (i : nat) (s : sub) (before fresh : option rvalue) : option rvalue :=
   if s_isq s then
-    fold_left (fun v r => if Nat.eqb (r_sub r) i && (r_kind r =? 1) then FOk (r_res r) else v) (sg_resps sg) before
+    fold_left (fun v r => if Nat.eqb (r_sub r) i && (r_kind r =? 1) then Some (r_res r) else v) (sg_resps sg) before
   else if existsb (pub_eqb (PReset (s_rid s))) (sg_pubs sg) then fresh else before.
 
 Fixpoint indexed {A} (i : nat) (l : list A) : list (nat * A) :=
@@ -179,7 +222,7 @@ Fixpoint indexed {A} (i : nat) (l : list A) : list (nat * A) :=
    4 a query run inside a callback does not see the mutation (result <> scan of the values after it)
    5 a subscribed client is not coherent with a fresh get after the segment *)
 Fixpoint viol_segs (qs : list qd) (hon : bool) (subs : list sub) (st : vstore val)
-                   (prev : list outcome) (fresh_prev : list outcome) (segs : list segment) : list N :=
+                   (prev : list outcome) (fresh_prev : list (option rvalue)) (segs : list segment) : list N :=
   match segs with
   | [] => []
   | sg :: r =>
@@ -197,7 +240,7 @@ Fixpoint viol_segs (qs : list qd) (hon : bool) (subs : list sub) (st : vstore va
                 (indexed 0 (combine prev (sg_results sg))) then [] else [2]) ++
     (if forallb (precise_ok qs) (sg_cbs sg) then [] else [3]) ++
     (if seen_ok cb0 && seen_ok cb1 then [] else [4]) ++
-    (if negb hon || forallb (fun p => let '(i, (s, (b, f))) := p in outcome_eqb (view_after sg i s b f) f)
+    (if negb hon || forallb (fun p => let '(i, (s, (b, f))) := p in orv_eqb (view_after sg i s b f) f)
                             (indexed 0 (combine subs (combine fresh_prev (sg_fresh sg)))) then [] else [5]) ++
     viol_segs qs hon subs (fold_left apply_change cs st) (sg_results sg)
               (if hon then sg_fresh sg else fresh_prev) r
@@ -206,7 +249,8 @@ Fixpoint viol_segs (qs : list qd) (hon : bool) (subs : list sub) (st : vstore va
 Definition viol_case (c : c14case) : list N :=
   nodup N.eq_dec (viol_segs (c_queries c) (c_handlers c) (c_subs c) []
                             (map (fun _ => FOk []) (c_queries c))
-                            (map (fun _ => FOk []) (c_subs c)) (c_segs c)).
+                            (map (fun s => Some (if beq (s_rid s) rid_qp0 || beq (s_rid s) rid_qp1
+                                                 then VModel [] else VColl [])) (c_subs c)) (c_segs c)).
 
 Definition mismatches (cs : list c14case) : list (N * N) := run_idx check_case 0 cs.
 Definition violations (cs : list c14case) : list (N * N) := run_idx viol_case 0 cs.
